@@ -49,8 +49,11 @@ def ensure_shim():
 
 class Svc:
     """service directory contents: files = [(filename, bus name, kind, tag)], kind in ok | badquote | nx | shared"""
-    def __init__(self, files, start_timeout=25000, pending=None):
+    def __init__(self, files, start_timeout=25000, pending=None, helper=False):
         self.files, self.start_timeout, self.pending = [tuple(f) for f in files], start_timeout, pending
+        # helper: the bus is configured with a <servicehelper>; the service files here carry no User= line, and such a bus refuses to
+        # start them (Spawn.FileInvalid) before anything is parsed or started - nothing may stay pending
+        self.helper = helper
 
     def exec_line(self, kind, tag, stub):
         if kind == "ok":
@@ -64,17 +67,18 @@ class Svc:
         raise ValueError(kind)
 
     def to_json(self):
-        return {"files": [list(f) for f in self.files], "start_timeout": self.start_timeout, "pending": self.pending}
+        return {"files": [list(f) for f in self.files], "start_timeout": self.start_timeout, "pending": self.pending, "helper": self.helper}
 
     @staticmethod
     def from_json(d):
-        return Svc(d["files"], d.get("start_timeout", 25000), d.get("pending"))
+        return Svc(d["files"], d.get("start_timeout", 25000), d.get("pending"), d.get("helper", False))
 
     def model_lines(self):
         out = []
         for fname, name, kind, tag in self.files:
             ex = self.exec_line(kind, tag, "STUB")
-            out.append("act file %s %s %d %d" % (name.encode().hex() or "-", ex.encode().hex(), 0 if kind == "badquote" else 1, 0 if kind == "nx" else 1))
+            out.append("act file %s %s %d %d%s" % (name.encode().hex() or "-", ex.encode().hex(), 0 if kind == "badquote" else 1, 0 if kind == "nx" else 1,
+                                                   (" " + b"org.freedesktop.DBus.Error.Spawn.FileInvalid".hex()) if self.helper else ""))
         return out
 
     def tag_of(self, name):
@@ -117,7 +121,7 @@ class ActRun(busdiff.ImplRun):
         self.nstarted = 0
         self.eof_unreliable = True
         self.info = []           # per step: programs started [(tag, number)], killed [number], ended (number or None)
-        super().__init__(policy, lim, '  <servicedir>%s</servicedir>\n' % d,
+        super().__init__(policy, lim, '  <servicedir>%s</servicedir>\n' % d + ('  <servicehelper>/nonexistent/verif-helper</servicehelper>\n' if svc.helper else ''),
                          env_extra={"LD_PRELOAD": SHIM, "VERIF_CLOCK_FILE": self.clock_path})
 
     def stop(self):
